@@ -311,10 +311,41 @@ def accepted_lengths(fn: ast.FunctionDef, upto: int = 12) -> Optional[Set[int]]:
     return ok
 
 
+def _quoted_fields(fn: ast.FunctionDef) -> List[Tuple[ast.AST, str]]:
+    """Fields export() wraps in literal double quotes: f'"{self.x}"' or '"' + self.x + '"'."""
+    out: List[Tuple[ast.AST, str]] = []
+    for n in ast.walk(fn):
+        if isinstance(n, ast.JoinedStr) and len(n.values) >= 3:
+            for i in range(1, len(n.values) - 1):
+                a, v, b = n.values[i - 1], n.values[i], n.values[i + 1]
+                if (isinstance(v, ast.FormattedValue) and isinstance(a, ast.Constant) and isinstance(b, ast.Constant)
+                        and str(a.value).endswith('"') and str(b.value).startswith('"')):
+                    for m in ast.walk(v.value):
+                        if isinstance(m, ast.Attribute) and dotted(m.value) == 'self':
+                            out.append((n, m.attr))
+        elif isinstance(n, ast.BinOp) and isinstance(n.op, ast.Add) and isinstance(n.right, ast.Constant) and str(n.right.value).startswith('"'):
+            inner = n.left
+            if isinstance(inner, ast.BinOp) and isinstance(inner.op, ast.Add) and isinstance(inner.left, ast.Constant) and str(inner.left.value).endswith('"'):
+                for m in ast.walk(inner.right):
+                    if isinstance(m, ast.Attribute) and dotted(m.value) == 'self':
+                        out.append((n, m.attr))
+    return out
+
+
+def _strips_quotes(fn: ast.FunctionDef) -> bool:
+    """parse() removes surrounding double quotes from an argument (.strip('"') and relatives)."""
+    for n in ast.walk(fn):
+        if (isinstance(n, ast.Call) and isinstance(n.func, ast.Attribute) and n.func.attr in ('strip', 'removeprefix', 'removesuffix', 'lstrip', 'rstrip')
+                and n.args and isinstance(n.args[0], ast.Constant) and isinstance(n.args[0].value, str) and '"' in n.args[0].value):
+            return True
+    return False
+
+
 def q6_helper_args(ctx: Any, prog: Program) -> None:
     hlp = prog.module('_fgd_helpers')
     ctx.rule('C16.Q6', 'helper arguments: every list export() can return keeps each field at the position parse() reads it from, and has a length parse() accepts', floor=30)
     n_cls = 0
+    n_quote = [0]
     for cname, c in hlp.all_classes().items():
         own_export = next((st for st in c.body if isinstance(st, ast.FunctionDef) and st.name == 'export'), None)
         own_parse = next((st for st in c.body if isinstance(st, ast.FunctionDef) and st.name == 'parse'), None)
@@ -329,6 +360,14 @@ def q6_helper_args(ctx: Any, prog: Program) -> None:
             continue
         n_cls += 1
         efn, pfn = ex[1], pa[1]
+        # Quotes written around an argument are part of the text parse() receives (the helper
+        # argument reader keeps them), so whichever side adds them the other must remove them.
+        quoted = _quoted_fields(efn)
+        for qn, qf in quoted:
+            ctx.check('C16.Q6', _strips_quotes(pfn), hlp, qn, f'{cname}.export wraps self.{qf} in double quotes (`{U(qn)[:50]}`) but {cname}.parse never strips quotes from its arguments: '
+                      'the value read back carries the quote characters', func=f'{cname}.export', text=f'{cname}: quotes added by export are stripped by parse')
+        if _strips_quotes(pfn):
+            n_quote[0] += 1
         try:
             whole, pos_fields = parse_positions(hlp, cname, pfn)
         except Unrecognised as u:
@@ -365,5 +404,7 @@ def q6_helper_args(ctx: Any, prog: Program) -> None:
                           func=f'{cname}.export', text=f'{cname}: argument {k} of a {len(seq)}-list')
             if lens is not None:
                 ctx.check('C16.Q6', len(seq) in lens, hlp, ret, f'{cname}.export can return {len(seq)} argument(s); {cname}.parse rejects that count (accepts {sorted(lens)})', func=f'{cname}.export', text=f'{cname}: {len(seq)} arguments accepted')
+    if not n_quote[0]:
+        raise AnalysisError('no helper parse() strips quotes any more (HelperSprite confirmed by hand): the quote-symmetry clause has no instance')
     if n_cls < 15:
         raise AnalysisError(f'only {n_cls} helper classes with parse()/export() found (16 confirmed by hand)')
